@@ -152,6 +152,25 @@ def plain(x):
     return x
 
 
+_MISSING = object()
+
+
+def _leaves(d, path=()):
+    for k, v in d.items():
+        if isinstance(v, dict):
+            yield from _leaves(v, path + (k,))
+        else:
+            yield path + (k,), v
+
+
+def _get(d, path):
+    for k in path:
+        if not isinstance(d, dict) or k not in d:
+            return _MISSING
+        d = d[k]
+    return d
+
+
 def overlay(d, u):
     """The reference: user value wherever the user's file sets the key, default otherwise,
     user-only keys kept, recursion only where both sides are tables."""
@@ -250,7 +269,7 @@ class C20(Check):
         "tomllib.parse(file), the file's bytes before/after, and the first-run clauses; non-trivial = a start found a user "
         "file whose keys overlap the defaults at depth >=1, or a first-run file was re-loaded; distinct = (op-kind sequence, digest of documents)"
     )
-    expected_probes = ["start_with_user_file", "start_first_run", "start_after_first_run_same_defaults", "start_after_upgrade_with_library_file", "overlap_nested", "user_only_key", "type_change", "table_vs_scalar", "user_delete", "upgrade"]
+    expected_probes = ["start_with_user_file", "start_first_run", "start_after_first_run_same_defaults", "start_after_upgrade_with_library_file", "overlap_nested", "user_only_key", "type_change", "table_vs_scalar", "user_delete", "upgrade", "upgrade_changed_leaf_checked"]
     assumptions = [
         "user documents are valid TOML with every value on one line (the first-run clause's own restriction; arrays of tables and multi-line values are not generated)",
         "tomllib (stdlib) is the independent reference parser",
@@ -342,6 +361,19 @@ class C20(Check):
                         raise Violation("first_run_inert", "the file written on first run changes the configuration on a later load: %s instead of the defaults %s" % (short(got, 220), short(dref, 220)), {"op": op})
                 else:
                     pr["start_after_upgrade_with_library_file"] += 1
+                    # the file the library wrote must stay inert after an upgrade of the defaults: wherever a key
+                    # path is a plain value (not a table) in both the old and the new defaults, the new default wins
+                    old = tomllib.loads(world.first_run_defaults)
+                    for path, newv in _leaves(dref):
+                        oldv = _get(old, path)
+                        if oldv is _MISSING or isinstance(oldv, dict):
+                            continue
+                        gv = _get(got, path)
+                        if gv is _MISSING or canon(gv) != canon(newv):
+                            self._nt = True
+                            raise Violation("first_run_inert", "the file written on first run overrides the upgraded default at %s: effective %s, new default %s (old default %s)" % (".".join(path), short(gv), short(newv), short(oldv)), {"op": op})
+                        if canon(oldv) != canon(newv):
+                            pr["upgrade_changed_leaf_checked"] += 1
         else:
             pr["start_first_run"] += 1
             if exc is not None:
